@@ -266,6 +266,23 @@ def correspond(ctx):
                 tok = {"protected": prot, "payload": pay, "signature": G.b64(sg)}
                 pk.append(("jwsver\t%s\t-\t%s\t0" % (G.dumps(tok), G.dumps(G.pub_of(k))), "verify", alg, G.pub_of(k), "A" if good else "R",
                            "RSA verify (valid PKCS#1 v1.5 signature under the offered key): modulus of %d bits" % bits))
+    # non-canonical encodings of a SMALL modulus: n left-padded with zero octets to 256 / 257 / 300 octets
+    # (the size that counts is that of the number, not of its text)
+    for bits in (1024, 2040):
+        k = rsa[str(bits)]
+        key = {m: pyec_int(k[m]) for m in ("n", "d")}
+        nb = G.unb64(k["n"])
+        for total in (256, 257, 300):
+            kp = dict(k, n=G.b64(b"\0" * (total - len(nb)) + nb))
+            for alg, hn in (("RS256", "sha256"), ("PS256", None)):
+                pk.append(("keyok\tsign\t%s\t%s" % (alg, G.dumps(kp)), "sign", alg, kp, "R", "RSA sign: modulus of %d bits, n zero-padded to %d octets" % (bits, total)))
+                if hn:
+                    prot = G.b64(G.dumps({"alg": alg}).encode())
+                    pay = G.b64(b"c10")
+                    sg = pyec.rsa_pkcs1_sign(key, hn, (prot + "." + pay).encode())
+                    tok = {"protected": prot, "payload": pay, "signature": G.b64(sg)}
+                    pk.append(("jwsver\t%s\t-\t%s\t0" % (G.dumps(tok), G.dumps(G.pub_of(kp))), "verify", alg, G.pub_of(kp), "R",
+                               "RSA verify (valid signature under the offered key): modulus of %d bits, n zero-padded to %d octets" % (bits, total)))
     # EC
     unw_req, unw_meta = [], []
     for crv in pyec.CURVES:
